@@ -16,7 +16,8 @@ import (
 // (reference evaluator), for every flow of a generated cluster.
 
 type flowWitness struct {
-	Direction   string   `json:"direction"` // ingress: verdict for Dst (pod on this node); egress: for Src; forward: both
+	Stage       string   `json:"judged,omitempty"` // transition mode: where in the manager's history the rules were judged
+	Direction   string   `json:"direction"`        // ingress: verdict for Dst (pod on this node); egress: for Src; forward: both
 	Src         string   `json:"src"`
 	Dst         string   `json:"dst"`
 	Proto       string   `json:"proto"`
@@ -44,6 +45,7 @@ type c16Result struct {
 	inconclusive string
 	iptDump      string
 	setDump      string
+	stageDumps   map[string][2]string // transition mode: stage -> filter dump, ipset dump
 }
 
 func (r *c16Result) addViol(sig, msg string, obs interface{}) {
@@ -610,7 +612,15 @@ func evalC16(c *Cluster) *c16Result {
 	rs := snapshot(e.ipt, e.sets)
 	res.iptDump, res.setDump = e.ipt.Dump("filter"), e.sets.Dump()
 	res.shapes = shapesOf(c)
+	judgeFlows(c, rs, nil, "", false, res)
+	return res
+}
 
+// judgeFlows compares walker and reference for every flow of cluster c over the rules in rs. fresh (optional) is what
+// a fresh manager installs for the same cluster: a mismatch the fresh rules do not have is explained by state left
+// over from the manager's history (stage names where in the history the rules were judged) instead of by the policy
+// shapes.
+func judgeFlows(c *Cluster, rs, fresh *ruleset, stage string, rejectedBatch bool, res *c16Result) {
 	podIPs := map[uint32]*Pod{}
 	var eps []Endpoint
 	for i := range c.Pods {
@@ -657,12 +667,38 @@ func evalC16(c *Cluster) *c16Result {
 		}
 		var sigs []string
 		var text string
-		if allowed {
+		staleState := false
+		exRS, exWR := rs, wr
+		if fresh != nil {
+			fwr := walk(fresh, "FORWARD", skip, pkt, false)
+			staleState = fwr.Verdict != "UNSUPPORTED" && (fwr.Verdict != "DROP") == allowed
+			if !staleState {
+				// a fresh manager's rules give the same wrong answer: the mismatch is explained by the policy shapes, on the
+				// fresh rules (the history may add further, here invisible, reasons for the same answer)
+				res.counters["mismatches_a_fresh_manager_has_too"]++
+				if fwr.Verdict != wr.Verdict {
+					res.counters["mismatches_a_fresh_manager_has_too_by_another_path"]++
+				}
+				exRS, exWR = fresh, fwr
+			}
+		}
+		if staleState {
+			res.counters["mismatches_a_fresh_manager_does_not_have"]++
+			sigs, text = explainStale(rs, fresh, skip, pkt, allowed, dir, local.Name+"_"+local.NS)
+			for i := range sigs {
+				sigs[i] += stage
+				if rejectedBatch && batchConsequence(sigs[i]) {
+					// the sync before this judgement had its policy batch rejected (-X of a referenced stale policy chain):
+					// chains it should have written are missing or outdated
+					sigs[i] += "-with-rejected-policy-batch"
+				}
+			}
+		} else if allowed {
 			sigs, text = explainUnder(c, dir, local, remote, admits)
 		} else {
-			sigs, text = explainOver(c, rs, dir, local, remote, strings.ToUpper(proto), port, wr, pkt, skip)
+			sigs, text = explainOver(c, exRS, dir, local, remote, strings.ToUpper(proto), port, exWR, pkt, skip)
 		}
-		fw := flowWitness{Direction: dir, Src: epName(src), Dst: epName(dst), Proto: proto, Port: port,
+		fw := flowWitness{Stage: strings.TrimPrefix(stage, "-"), Direction: dir, Src: epName(src), Dst: epName(dst), Proto: proto, Port: port,
 			RefIsolated: isolated, RefAllowed: allowed, RefAdmits: admitNames(dir, admits), Walker: wr.Verdict,
 			Path: wr.Path, Explanation: text}
 		for _, s := range sigs {
@@ -694,7 +730,7 @@ func evalC16(c *Cluster) *c16Result {
 						egAllow, egW, egAgree = check(dirEgress, src.Pod, src, dst, dst, proto, port)
 					}
 					if res.inconclusive != "" {
-						return res
+						return
 					}
 					if srcOn && dstOn {
 						// the one packet crosses FORWARD once: the connection is allowed iff both ends allow it
@@ -730,8 +766,9 @@ func evalC16(c *Cluster) *c16Result {
 			}
 		}
 	}
-	res.nontrivial = sawAllow && sawDeny
-	return res
+	if sawAllow && sawDeny {
+		res.nontrivial = true
+	}
 }
 
 func ad(b bool) string {
